@@ -1,10 +1,13 @@
 //! One module per claimed property.
 use crate::prop::Prop;
 
+pub mod c07;
 pub mod c13;
+pub mod c14;
+pub mod c15;
 
 pub fn all() -> Vec<&'static dyn Prop> {
-    vec![&c13::C13]
+    vec![&c07::C07, &c13::C13, &c14::C14, &c15::C15]
 }
 
 pub fn get(id: &str) -> Option<&'static dyn Prop> {
